@@ -15,7 +15,10 @@ Inductive listen_error := LNone | LAddrInUse | LTemporary.
    the imposed script, the
    observed trace (events ordered by the harness's single atomic clock) *)
 Inductive case :=
-| CRun (rt : router) (tr : transport) (le : listen_error) (script : list sstep) (trace : list event).
+| CRun (rt : router) (tr : transport) (le : listen_error) (script : list sstep) (trace : list event)
+(* use_h2c on and the requests [ups] come from clients that take the h2c upgrade (cases inside the
+   recorded finding): the trace is checked for inclusion in the extended system *)
+| CRunUpgraded (rt : router) (ups : list nat) (script : list sstep) (trace : list event).
 
 (* corr_ok: the harness imposed what the case says and the observed trace is a complete trace
    of the model (trace inclusion); prop_ok: the verified monitor accepts the observed trace *)
@@ -23,6 +26,7 @@ Definition check_case (c : case) : bool * bool :=
   match c with
   | CRun _ _ le sc t =>
       (imposed_b (match le with LNone => false | _ => true end) sc t && accepts_b t, graceful_b t)
+  | CRunUpgraded _ ups sc t => (imposed_b false sc t && xaccepts_b ups t, graceful_b t)
   end.
 
 Fixpoint failing (i : nat) (cs : list case) : list verdict :=
